@@ -439,7 +439,7 @@ def check(pid, tier="quick", runs=None, procs=None, vseed=None, budget=None):
     vseed = int(os.environ.get("VERIF_SEED", "0")) if vseed is None else vseed
     tier = os.environ.get("VERIF_TIER", tier) if tier is None else tier
     runs = runs or (prop.quick_runs if tier == "quick" else prop.thorough_runs)
-    budget = budget or (getattr(prop, "quick_budget", 60.0) if tier == "quick" else getattr(prop, "thorough_budget", 900.0))
+    budget = budget or (getattr(prop, "quick_budget", 1500.0) if tier == "quick" else getattr(prop, "thorough_budget", 900.0))
     procs = procs or int(os.environ.get("VERIF_PROCS", "0")) or min(8, os.cpu_count() or 1)
     deadline = t0 + budget
     print("check %s tier=%s VERIF_SEED=%d runs<=%d procs=%d repo=%s" % (pid, tier, vseed, runs, procs, REPO))
